@@ -63,10 +63,13 @@ def dedupObserved : List String → List String
 /-- canonical multiset of what the implementation showed in one segment -/
 def implCanon (p : Proc) (obs : List String) : List String :=
   let isCatch (n : String) : Bool := ((p.node? n).map (·.kind == .catch_)).getD false
+  -- completions of end events INSIDE a sub-process are not compared (as in Driver/Eng: the inner tracer's last traces
+  -- race the relay's shutdown)
+  let top (n : String) : Bool := ((p.node? n).map (·.parent == "-")).getD true
   dedupObserved <| sortStrs (obs.filterMap (fun o =>
     match words o with
     | "task" :: n :: _ => some s!"req {n}"
-    | ["complete", n] => some s!"complete {n}"
+    | ["complete", n] => if top n then some s!"complete {n}" else none
     | ["listening", n] => some s!"listening {n}"
     | ["observed", n] => some s!"observed {n}"
     | "flow" :: n :: _ => if isCatch n then some s!"fire {n}" else none
@@ -74,15 +77,16 @@ def implCanon (p : Proc) (obs : List String) : List String :=
     | ["error", cls] => some s!"error {cls}"
     | _ => none))
 
-def modelCanon (obs : List CObs) (ret : Option Bool) : List String :=
-  dedupObserved <| sortStrs (obs.map (fun o =>
+def modelCanon (p : Proc) (obs : List CObs) (ret : Option Bool) : List String :=
+  let top (n : String) : Bool := ((p.node? n).map (·.parent == "-")).getD true
+  dedupObserved <| sortStrs (obs.filterMap (fun o =>
     match o with
-    | .eng (.req n) => s!"req {n}"
-    | .eng (.complete n) => s!"complete {n}"
-    | .eng (.err c) => s!"error {c}"
-    | .listening n => s!"listening {n}"
-    | .observed n => s!"observed {n}"
-    | .fire n => s!"fire {n}") ++
+    | .eng (.req n) => some s!"req {n}"
+    | .eng (.complete n) => if top n then some s!"complete {n}" else none
+    | .eng (.err c) => some s!"error {c}"
+    | .listening n => some s!"listening {n}"
+    | .observed n => some s!"observed {n}"
+    | .fire n => some s!"fire {n}") ++
     (match ret with | some true => ["ret returned"] | some false => ["ret blocked"] | none => []))
 
 def count (xs : List String) (x : String) : Nat := xs.count x
@@ -254,7 +258,7 @@ def check (_params : List String) (lines : List String) : CaseResult := Id.run d
       stop := true
       r := { r with skipped := true, infos := [s!"outside the model's domain: {why}"] }
     | none =>
-      let m := modelCanon st.obs ret
+      let m := modelCanon p st.obs ret
       let i := implCanon p obs
       if m != i then
         stop := true
